@@ -270,7 +270,9 @@ pub fn app_layer(scratch: &crate::world::app::Scratch, net: &Net, st: &mut Stats
     ]});
     spec.output_plugins = vec![json!({"type": "traversal", "route": "edge_id", "tree": "edge_id", "geometry_input_file": "$DIR/geometries.txt"})];
     spec.gzip_graph = idx % 2 == 0;
-    let dir = scratch.path.join(format!("a{}", net.hash_idx()));
+    // (the same network can come from two families at the same time: the directory name carries a counter)
+    static APP_DIR_COUNTER: std::sync::atomic::AtomicU64 = std::sync::atomic::AtomicU64::new(0);
+    let dir = scratch.path.join(format!("a{}_{}", net.hash_idx(), APP_DIR_COUNTER.fetch_add(1, std::sync::atomic::Ordering::Relaxed)));
     let app = match spec.build(&dir) {
         Ok(a) => a,
         Err(e) => {
